@@ -161,6 +161,23 @@ func (env *SpecEnv) lookup(name string) (Val, bool) {
 			}
 		}
 	}
+	// a block-scoped local that is out of lexical scope at the clause's position (e.g. a variable of an if-init, named
+	// by a step clause evaluated at the back edge) but still has a value on this path: accepted when unambiguous
+	{
+		var hit *types.Var
+		n := 0
+		for o := range env.st.vars {
+			if v, ok := o.(*types.Var); ok && v.Name() == name && !v.IsField() {
+				hit = v
+				n++
+			}
+		}
+		if n == 1 {
+			if v := env.st.vars[hit]; !vc.addrTaken[hit] {
+				return v, true
+			}
+		}
+	}
 	switch name {
 	case "true":
 		return boolVal(True), true
@@ -356,6 +373,9 @@ func (env *SpecEnv) evalBinary(x *ast.BinaryExpr) Val {
 	case token.EQL, token.NEQ:
 		var eq *Term
 		switch {
+		case len(l.C) == 1 && len(r.C) == 1 && l.C[0].Sort == "Flt" && r.C[0].Sort == "Flt":
+			// float comparison: the same uninterpreted predicate the code's == evaluates to (NaN != NaN, so not identity)
+			eq = App("flt_eq", SBool, l.C[0], r.C[0])
 		case l.T == nil && r.T == nil:
 			if len(l.C) == len(r.C) && len(l.C) > 0 && l.C[0].Sort == r.C[0].Sort {
 				eq = eqVal(l, r)
@@ -675,6 +695,23 @@ func (env *SpecEnv) evalCall(x *ast.CallExpr) Val {
 					return intVal(Zero)
 				}
 				return mkVal(sig.Results().At(0).Type(), App("pure:"+full, l[0].Sort, as...))
+			}
+		}
+	}
+	if id, ok := x.Fun.(*ast.Ident); ok && env.pkg != nil && env.pkg.Types != nil {
+		// same-package pure function without postconditions
+		if fn, _ := env.pkg.Types.Scope().Lookup(id.Name).(*types.Func); fn != nil {
+			full := funcFullName(fn)
+			con := vc.prog.Contracts[full]
+			sig := fn.Type().(*types.Signature)
+			if con != nil && con.Pure && len(con.Ensures) == 0 && sig.Results().Len() == 1 {
+				var as []*Term
+				for _, a := range x.Args {
+					as = append(as, vc.pureArgTerms(env.st, env.eval(a))...)
+				}
+				if l := layout(sig.Results().At(0).Type()); len(l) == 1 {
+					return mkVal(sig.Results().At(0).Type(), App("pure:"+full, l[0].Sort, as...))
+				}
 			}
 		}
 	}
